@@ -401,8 +401,13 @@ OnRelease(m, e, i) ==
       m3 == Check(m2, TRUE, m.cb = "", "C03", "r2", i, o)
       m4a == Check(m3, ~InDrop(m, o), o \notin ReachNow(m, a), "C01", "r2", i, o)
       m4 == Check(m4a, ~InDrop(m, o) /\ o \in ReachNow(m, a) /\ o \in Close(m, m.ar[a].adopted), FALSE, "C06", "r2", i, o)
+      \* C06 r3 (at the release itself): a block whose weak pointer was adopted during this cycle by the
+      \* root or by an object that is still reachable is not released
+      heldWeakly == \/ o \in Range(m.ar[a].rootW)
+                    \/ \E q \in ReachNow(m, a) : o \in Range(m.weak[q])
+      m4b == Check(m4, ~InDrop(m, o) /\ o \in m.ar[a].wadopted /\ heldWeakly, FALSE, "C06", "r3", i, o)
       \* C04 r5: a value with a destructor is destructed before its block goes
-      m5 == Check(m4, m.dtor[o], o \in m.destructed, "C04", "r5", i, o)
+      m5 == Check(m4b, m.dtor[o], o \in m.destructed, "C04", "r5", i, o)
       \* C17 r3: nothing was written outside the block
       m6 == Check(m5, TRUE, e.guard_ok, "C17", "r3", i, o)
       m7 == Check(m6, m.call # "" \/ m.cb # "",
